@@ -200,7 +200,7 @@ Qed.
 (* ============================================================================================ *)
 (* C — values                                                                                     *)
 (* ============================================================================================ *)
-Definition val (m : positive) (e : Z) : Q := (inject_Z (Z.pos m) * 2 ^ e)%Q.
+Definition fval (m : positive) (e : Z) : Q := (inject_Z (Z.pos m) * 2 ^ e)%Q.
 
 (* a positive float with a 53-bit mantissa *)
 Definition normal (f : fl) (m : positive) (e : Z) : Prop :=
@@ -215,9 +215,9 @@ Proof. intros. apply Qpower_0_lt. reflexivity. Qed.
 Lemma qpow_inj : forall k, 0 <= k -> (2 ^ k == inject_Z (2 ^ k))%Q.
 Proof. intros k Hk. rewrite Zpower_Qpower by exact Hk. reflexivity. Qed.
 
-Lemma val_pos : forall m e, (0 < val m e)%Q.
+Lemma val_pos : forall m e, (0 < fval m e)%Q.
 Proof.
-  intros m e. unfold val. apply Qmult_lt_0_compat; [|apply qpow_pos].
+  intros m e. unfold fval. apply Qmult_lt_0_compat; [|apply qpow_pos].
   change 0%Q with (inject_Z 0). rewrite <- Zlt_Qlt. lia.
 Qed.
 
@@ -233,7 +233,7 @@ Lemma bra_value : forall s p ex l (x : Q),
     binary_round_aux prec emax s (Z.pos p) ex l = S754_finite s m3 e3
     /\ 2 ^ 52 <= Z.pos m3 < 2 ^ 53
     /\ ex + d - 53 <= e3 <= ex + d - 52
-    /\ close x (val m3 e3).
+    /\ close x (fval m3 e3).
 Proof.
   intros s p ex l x d Hd Hex1 Hex2 Hlo Hhi.
   destruct (bra_spec s p ex l Hd Hex1 Hex2) as (m3 & e3 & m2 & E & Hm2 & _ & Hm3 & He3 & Hm1). fold d in Hm2, He3, Hm1.
@@ -259,11 +259,11 @@ Proof.
   assert (HT : (4503599627370496 * A <= W)%Q).
   { unfold W. apply Qmult_le_compat_r; [|apply Qlt_le_weak; exact HA].
     change 4503599627370496%Q with (inject_Z (2 ^ 52)). rewrite <- Zle_Qle. lia. }
-  assert (Hv : (val m3 e3 == inject_Z m2 * A)%Q).
-  { unfold val, A. destruct He3 as [[-> ->]|[-> <-]]; [reflexivity|].
+  assert (Hv : (fval m3 e3 == inject_Z m2 * A)%Q).
+  { unfold fval, A. destruct He3 as [[-> ->]|[-> <-]]; [reflexivity|].
     rewrite Qpower_plus by apply two_neq0. rewrite inject_Z_mult. change (2 ^ 1)%Q with 2%Q.
     change (inject_Z 2) with 2%Q. ring. }
-  assert (Hv' : (val m3 e3 == W \/ val m3 e3 == W + A)%Q).
+  assert (Hv' : (fval m3 e3 == W \/ fval m3 e3 == W + A)%Q).
   { destruct Hm2 as [->| ->]; [left; exact Hv|right]. rewrite Hv, inject_Z_plus. unfold W.
     change (inject_Z 1) with 1%Q. ring. }
   unfold close. destruct Hv' as [Hv'|Hv']; rewrite Hv'; split; lra.
@@ -281,7 +281,7 @@ Qed.
 
 Lemma f_of_Z_spec : forall z, 0 < z < 2 ^ 53 ->
   exists m e, normal (f_of_Z z) m e /\ -52 <= e <= 0 /\ Z.pos m = z * 2 ^ (- e)
-              /\ (val m e == inject_Z z)%Q.
+              /\ (fval m e == inject_Z z)%Q.
 Proof.
   intros z Hz. destruct z as [|p|p]; [lia| |lia].
   unfold f_of_Z, f_of_dyadic, binary_normalize, binary_round.
@@ -307,7 +307,7 @@ Proof.
   { destruct He3 as [[-> Hm]|[_ Hm]]; [split; [lia|]; congruence|lia]. }
   destruct Hres as [-> ->]. exists mz, (d - 53). split; [split; [exact E|exact Hmzb]|].
   split; [lia|]. replace (- (d - 53)) with (53 - d) by lia. split; [exact Hmz|].
-  unfold val. rewrite Hmz, inject_Z_mult. replace (d - 53) with (- (53 - d)) by lia.
+  unfold fval. rewrite Hmz, inject_Z_mult. replace (d - 53) with (- (53 - d)) by lia.
   rewrite Qpower_opp, <- (qpow_inj (53 - d)) by lia. field. apply Qpower_not_0, two_neq0.
 Qed.
 
@@ -318,7 +318,7 @@ Proof. intros a b E. rewrite E. apply Qle_refl. Qed.
 Lemma fmul_spec : forall a b ma ea mb eb,
   normal a ma ea -> normal b mb eb -> -400 <= ea <= 400 -> -400 <= eb <= 400 ->
   exists m e, normal (fmul a b) m e /\ ea + eb + 52 <= e <= ea + eb + 54
-              /\ close (val ma ea * val mb eb) (val m e).
+              /\ close (fval ma ea * fval mb eb) (fval m e).
 Proof.
   intros a b ma ea mb eb [-> Ha] [-> Hb] Hea Heb. unfold fmul, SFmul. cbn [xorb].
   assert (HP : 2 ^ 104 <= Z.pos (ma * mb) < 2 ^ 106).
@@ -329,9 +329,9 @@ Proof.
   { assert (0 < d) by (unfold d; lia). split.
     - assert (104 < d) by (apply pow2_lt_inv; lia). lia.
     - assert (d - 1 < 106) by (apply pow2_lt_inv; lia). lia. }
-  assert (Ex : (inject_Z (Z.pos (ma * mb)) * 2 ^ (ea + eb) == val ma ea * val mb eb)%Q).
-  { unfold val. rewrite Pos2Z.inj_mul, inject_Z_mult, Qpower_plus by apply two_neq0. ring. }
-  destruct (bra_value false (ma * mb) (ea + eb) loc_Exact (val ma ea * val mb eb)%Q) as (m & e & E & Hm & He & Hc);
+  assert (Ex : (inject_Z (Z.pos (ma * mb)) * 2 ^ (ea + eb) == fval ma ea * fval mb eb)%Q).
+  { unfold fval. rewrite Pos2Z.inj_mul, inject_Z_mult, Qpower_plus by apply two_neq0. ring. }
+  destruct (bra_value false (ma * mb) (ea + eb) loc_Exact (fval ma ea * fval mb eb)%Q) as (m & e & E & Hm & He & Hc);
     fold d; try lia.
   - apply Qle_of_eq. exact Ex.
   - rewrite <- Ex. apply Qmult_le_compat_r; [rewrite <- Zle_Qle; lia|apply Qlt_le_weak, qpow_pos].
@@ -373,7 +373,7 @@ Qed.
 Lemma fdiv_spec : forall a b ma ea mb eb,
   normal a ma ea -> normal b mb eb -> -400 <= ea <= 400 -> -400 <= eb <= 400 ->
   exists m e, normal (fdiv a b) m e /\ ea - eb - 53 <= e <= ea - eb - 51
-              /\ close (val ma ea / val mb eb) (val m e).
+              /\ close (fval ma ea / fval mb eb) (fval m e).
 Proof.
   intros a b ma ea mb eb Na Nb Hea Heb.
   destruct (fdiv_core a b ma ea mb eb Na Nb Hea Heb) as (pq & r & Eq & Hr & Hq & E). rewrite E.
@@ -383,10 +383,10 @@ Proof.
   { assert (0 < d) by (unfold d; lia). split.
     - assert (52 < d) by (apply pow2_lt_inv; lia). lia.
     - assert (d - 1 < 54) by (apply pow2_lt_inv; lia). lia. }
-  set (x := (val ma ea / val mb eb)%Q).
+  set (x := (fval ma ea / fval mb eb)%Q).
   assert (HB : (0 < inject_Z (Z.pos mb))%Q) by (change 0%Q with (inject_Z 0); rewrite <- Zlt_Qlt; lia).
   assert (Ex : (x == inject_Z (Z.pos ma * 2 ^ 53) / inject_Z (Z.pos mb) * 2 ^ (ea - eb - 53))%Q).
-  { unfold x, val. replace (ea - eb - 53) with (ea + (- eb + - (53))) by lia.
+  { unfold x, fval. replace (ea - eb - 53) with (ea + (- eb + - (53))) by lia.
     rewrite !Qpower_plus, !Qpower_opp by apply two_neq0. rewrite inject_Z_mult, (qpow_inj 53) by lia.
     field. repeat split; try (apply Qpower_not_0, two_neq0); try (intro H0; rewrite H0 in HB; discriminate HB).
     rewrite <- (qpow_inj 53) by lia. apply Qpower_not_0, two_neq0. }
@@ -407,17 +407,17 @@ Ltac push_inj H :=
   repeat (rewrite inject_Z_plus in H || rewrite inject_Z_mult in H || rewrite inject_Z_opp in H);
   change (inject_Z 2) with 2%Q in H; change (inject_Z 1) with 1%Q in H.
 
-Lemma val_neg_exp : forall m e, e < 0 -> (val m e == inject_Z (Z.pos m) / inject_Z (2 ^ (- e)))%Q.
+Lemma val_neg_exp : forall m e, e < 0 -> (fval m e == inject_Z (Z.pos m) / inject_Z (2 ^ (- e)))%Q.
 Proof.
-  intros m e He. unfold val. replace e with (- (- e)) at 1 by lia.
+  intros m e He. unfold fval. replace e with (- (- e)) at 1 by lia.
   rewrite Qpower_opp, (qpow_inj (- e)) by lia. reflexivity.
 Qed.
 
-Lemma val_pos_exp : forall m e, 0 <= e -> (val m e == inject_Z (Z.pos m * 2 ^ e))%Q.
-Proof. intros m e He. unfold val. rewrite inject_Z_mult, (qpow_inj e) by lia. reflexivity. Qed.
+Lemma val_pos_exp : forall m e, 0 <= e -> (fval m e == inject_Z (Z.pos m * 2 ^ e))%Q.
+Proof. intros m e He. unfold fval. rewrite inject_Z_mult, (qpow_inj e) by lia. reflexivity. Qed.
 
 Lemma f_floor_spec : forall m e, exists j,
-  f_floor (S754_finite false m e) = Some j /\ (inject_Z j <= val m e)%Q /\ (val m e < inject_Z j + 1)%Q.
+  f_floor (S754_finite false m e) = Some j /\ (inject_Z j <= fval m e)%Q /\ (fval m e < inject_Z j + 1)%Q.
 Proof.
   intros m e. unfold f_floor. destruct (0 <=? e) eqn:Ee.
   - exists (Z.pos m * 2 ^ e). split; [reflexivity|]. rewrite val_pos_exp by lia. split; [apply Qle_refl|lra].
@@ -433,7 +433,7 @@ Qed.
 
 Lemma rhe_spec : forall m e, exists r,
   f_round_half_even (S754_finite false m e) = Some r
-  /\ (val m e <= inject_Z r + (1 # 2))%Q /\ (inject_Z r - (1 # 2) <= val m e)%Q.
+  /\ (fval m e <= inject_Z r + (1 # 2))%Q /\ (inject_Z r - (1 # 2) <= fval m e)%Q.
 Proof.
   intros m e. unfold f_round_half_even. destruct (0 <=? e) eqn:Ee.
   - exists (Z.pos m * 2 ^ e). split; [reflexivity|]. rewrite val_pos_exp by lia. split; lra.
@@ -498,7 +498,7 @@ Proof. reflexivity. Qed.
 (* fl(fl(i * fl(1/nq))): a positive float within (1 -+ 2^-52)^2 of i/nq *)
 Lemma frac_spec : forall i nq, 0 < nq < 2 ^ 53 -> 0 < i < 2 ^ 53 ->
   exists m e, normal (fmul (f_of_Z i) (fdivZ 1 nq)) m e /\ -200 <= e <= 200
-    /\ within (c0 * c0) (c1 * c1) (inject_Z i * (1 / inject_Z nq))%Q (val m e).
+    /\ within (c0 * c0) (c1 * c1) (inject_Z i * (1 / inject_Z nq))%Q (fval m e).
 Proof.
   intros i nq Hnq Hi.
   destruct (f_of_Z_spec 1 ltac:(cbn; lia)) as (m1 & e1 & N1 & He1 & _ & V1).
@@ -510,7 +510,7 @@ Proof.
   exists mt, et. split; [exact Nt|]. split; [lia|].
   apply close_within in Cr. apply close_within in Ct.
   apply (within_eq _ _ _ (1 / inject_Z nq)%Q) in Cr; [|rewrite V1, Vq; reflexivity].
-  apply (within_eq _ _ _ (inject_Z i * val mr er)%Q) in Ct; [|rewrite Vi; reflexivity].
+  apply (within_eq _ _ _ (inject_Z i * fval mr er)%Q) in Ct; [|rewrite Vi; reflexivity].
   pose proof (within_scale _ _ _ _ (inject_Z i) Cr (injZ_nonneg i ltac:(lia))) as S1.
   refine (within_trans _ _ _ _ _ _ _ S1 Ct _ _); unfold c0, c1; lra.
 Qed.
@@ -529,12 +529,12 @@ Proof.
     destruct (fmul_spec _ _ _ _ _ _ Na Nt ltac:(lia) ltac:(lia)) as (my & ey & [Ey _] & _ & Cy).
     rewrite Ey in H. destruct (f_floor_spec my ey) as (j' & Ej & J1 & J2). rewrite Ej in H. injection H as ->.
     apply close_within in Cy.
-    apply (within_eq _ _ _ (inject_Z (n - 1) * val mt et)%Q) in Cy; [|rewrite Va; reflexivity].
+    apply (within_eq _ _ _ (inject_Z (n - 1) * fval mt et)%Q) in Cy; [|rewrite Va; reflexivity].
     pose proof (within_scale _ _ _ _ (inject_Z (n - 1)) Wt (injZ_nonneg (n - 1) ltac:(lia))) as S1.
     assert (W : within (c0 * c0 * c0) (c1 * c1 * c1)
-                       (inject_Z (n - 1) * (inject_Z i * (1 / inject_Z nq)))%Q (val my ey)).
+                       (inject_Z (n - 1) * (inject_Z i * (1 / inject_Z nq)))%Q (fval my ey)).
     { refine (within_trans _ _ _ _ _ _ _ S1 Cy _ _); unfold c0, c1; lra. }
-    clear S1 Cy Wt. set (v := val my ey) in *.
+    clear S1 Cy Wt. set (v := fval my ey) in *.
     pose proof (injZ_pos nq ltac:(lia)) as HNQ.
     set (X := (inject_Z (n - 1) * (inject_Z i * (1 / inject_Z nq)))%Q) in *.
     assert (EX : (X * inject_Z nq == inject_Z ((n - 1) * i))%Q).
@@ -570,11 +570,11 @@ Proof.
   rewrite Ey in H. destruct (rhe_spec my ey) as (r & Er & R1 & R2). rewrite Er in H. injection H as ->.
   apply close_within in Cd. apply close_within in Cy.
   apply (within_eq _ _ _ (inject_Z n / inject_Z N)%Q) in Cd; [|rewrite Vn, VN; reflexivity].
-  apply (within_eq _ _ _ (inject_Z q * val md ed)%Q) in Cy; [|rewrite Vq; ring].
+  apply (within_eq _ _ _ (inject_Z q * fval md ed)%Q) in Cy; [|rewrite Vq; ring].
   pose proof (within_scale _ _ _ _ (inject_Z q) Cd (injZ_nonneg q ltac:(lia))) as S1.
-  assert (W : within (c0 * c0) (c1 * c1) (inject_Z q * (inject_Z n / inject_Z N))%Q (val my ey)).
+  assert (W : within (c0 * c0) (c1 * c1) (inject_Z q * (inject_Z n / inject_Z N))%Q (fval my ey)).
   { refine (within_trans _ _ _ _ _ _ _ S1 Cy _ _); unfold c0, c1; lra. }
-  clear S1 Cd Cy. set (v := val my ey) in *.
+  clear S1 Cd Cy. set (v := fval my ey) in *.
   pose proof (injZ_pos N ltac:(lia)) as HNN.
   set (X := (inject_Z q * (inject_Z n / inject_Z N))%Q) in *.
   assert (EX : (X * inject_Z N == inject_Z (q * n))%Q).
@@ -632,9 +632,9 @@ Proof. intros k H. change 2 with (2 ^ 1) at 1. apply Z.pow_le_mono_r; lia. Qed.
 
 (* comparison of two positive floats with 53-bit mantissas *)
 Lemma fleb_of_val_le : forall a b ma ea mb eb,
-  normal a ma ea -> normal b mb eb -> (val ma ea <= val mb eb)%Q -> fleb a b = true.
+  normal a ma ea -> normal b mb eb -> (fval ma ea <= fval mb eb)%Q -> fleb a b = true.
 Proof.
-  intros a b ma ea mb eb [-> Ha] [-> Hb] H. unfold fleb, SFleb, SFcompare, val in *.
+  intros a b ma ea mb eb [-> Ha] [-> Hb] H. unfold fleb, SFleb, SFcompare, fval in *.
   destruct (Z.compare_spec ea eb) as [E|L|G].
   - subst eb. apply (cmp_le_common _ _ ea ea ea) in H; [|lia|lia]. rewrite Z.sub_diag, Z.pow_0_r in H.
     change (Pos.compare_cont Eq ma mb) with (Pos.compare ma mb).
@@ -658,9 +658,9 @@ Proof.
 Qed.
 
 Lemma quot_value : forall ma ea mb eb,
-  (val ma ea / val mb eb == inject_Z (Z.pos ma * 2 ^ 53) / inject_Z (Z.pos mb) * 2 ^ (ea - eb - 53))%Q.
+  (fval ma ea / fval mb eb == inject_Z (Z.pos ma * 2 ^ 53) / inject_Z (Z.pos mb) * 2 ^ (ea - eb - 53))%Q.
 Proof.
-  intros ma ea mb eb. unfold val.
+  intros ma ea mb eb. unfold fval.
   assert (HB : (0 < inject_Z (Z.pos mb))%Q) by (apply injZ_pos; lia).
   replace (ea - eb - 53) with (ea + (- eb + - (53))) by lia.
   rewrite !Qpower_plus, !Qpower_opp by apply two_neq0. rewrite inject_Z_mult, (qpow_inj 53) by lia.
@@ -705,13 +705,13 @@ Proof.
   assert (F2 : (inject_Z (Z.pos pq) * 2 ^ e' <= x)%Q).
   { rewrite Ex. apply Qmult_le_compat_r; [|apply Qlt_le_weak, qpow_pos].
     apply Qle_shift_div_l; [exact HMQ|]. rewrite <- inject_Z_mult, <- Zle_Qle. lia. }
-  assert (F3 : (x <= val mc ec)%Q).
+  assert (F3 : (x <= fval mc ec)%Q).
   { rewrite Vc. unfold x. apply Qle_shift_div_r; [exact HQ|]. rewrite <- inject_Z_mult, <- Zle_Qle. lia. }
-  assert (Hv : (val m3 e3 == inject_Z m2 * A)%Q).
-  { unfold val, A. destruct He3 as [[-> ->]|[-> <-]]; [reflexivity|].
+  assert (Hv : (fval m3 e3 == inject_Z m2 * A)%Q).
+  { unfold fval, A. destruct He3 as [[-> ->]|[-> <-]]; [reflexivity|].
     rewrite Qpower_plus by apply two_neq0. rewrite inject_Z_mult. change (2 ^ 1)%Q with 2%Q.
     change (inject_Z 2) with 2%Q. ring. }
-  assert (Goal : (val m3 e3 <= val mc ec)%Q).
+  assert (Goal : (fval m3 e3 <= fval mc ec)%Q).
   { rewrite Hv. destruct Hm2 as [->|Em2].
     - eapply Qle_trans; [exact F1|]. eapply Qle_trans; [exact F2|exact F3].
     - rewrite Em2. destruct Nc as [_ Hmc]. apply grid_succ; [exact Hm1|exact Hmc|]. fold A.
@@ -734,3 +734,191 @@ Proof.
   destruct Nc as [Ec Hmc]. rewrite Ec in H.
   rewrite (fleb_of_val_le _ _ m3 e3 mc ec Nt (conj eq_refl Hmc) Goal) in H. discriminate.
 Qed.
+
+(* ============================================================================================ *)
+(* F — the three premises hold in binary64 for len_df <= 2^50 and q <= 2^50                        *)
+(* ============================================================================================ *)
+Theorem positions_near_binary64 : forall q N tot,
+  0 < q <= 2 ^ 50 -> tot <= N -> N <= 2 ^ 50 -> positions_near 1 q N tot.
+Proof.
+  intros q N tot Hq Htot HN n nq i j Hn Hnq Hnq1 Hi Hj.
+  destruct (new_q_spec q N n nq Hq ltac:(lia) HN Hnq) as [_ Hlt].
+  apply q_position_near; try lia. exact Hj.
+Qed.
+
+Theorem newq_near_binary64 : forall q N tot,
+  0 < q <= 2 ^ 50 -> tot <= N -> N <= 2 ^ 50 -> newq_near (2 ^ 50) q N tot.
+Proof.
+  intros q N tot Hq Htot HN n nq Hn Hnq.
+  destruct (new_q_spec q N n nq Hq ltac:(lia) HN Hnq) as [H _]. exact H.
+Qed.
+
+Lemma In_count_le_total : forall vc v c, Forall (fun p => 0 < snd p) vc -> In (v, c) vc -> c <= total vc.
+Proof.
+  induction vc as [|p t IH]; intros v c Hp Hin; [contradiction|]. inversion Hp as [|? ? Hp0 Hpt]; subst.
+  rewrite total_cons. pose proof (total_nonneg t Hpt). destruct Hin as [->|Hin]; [cbn [snd]; lia|].
+  specialize (IH v c Hpt Hin). lia.
+Qed.
+
+Theorem thr_exact_binary64 : forall q N vc,
+  Forall (fun p => 0 < snd p) vc -> 0 < q <= 2 ^ 50 -> total vc <= N -> N <= 2 ^ 50 -> thr_exact q N vc.
+Proof.
+  intros q N vc Hp Hq Htot HN v c Hin Hf.
+  pose proof (In_count_le_total vc v c Hp Hin) as Hc.
+  assert (0 < c) by (rewrite Forall_forall in Hp; apply (Hp (v, c) Hin)).
+  change (2 ^ 50) with 1125899906842624 in *.
+  apply thr_spec; try (change (2 ^ 53) with 9007199254740992; lia); exact Hf.
+Qed.
+
+(* no premise about floats left: at most 2.25*len_df/q + 2 rows *)
+Theorem bucket_bound_binary64 : forall dedup q len_df vc l,
+  Sorted Z.lt (observed_values vc) -> Forall (fun p => 0 < snd p) vc -> total vc <= len_df ->
+  len_df <= 2 ^ 50 -> 0 < q <= 2 ^ 50 ->
+  find_quantiles_v dedup q len_df vc = QOk l ->
+  forall lo hi, In (lo, hi) (bounds None l) ->
+  (forall b c, hi = Some b -> In (b, c) vc -> is_freq (thr len_df q) c = false) ->
+  4 * q * bucket_count vc lo hi <= 9 * len_df + 8 * q.
+Proof.
+  intros dedup q N vc l Hs Hp Htot HN Hq Hfq lo hi Hin Hnf.
+  pose proof (C09_bucket_bound 1 (2 ^ 50) dedup q N vc l Hs Hp Htot ltac:(lia) ltac:(lia) ltac:(lia) HN
+                (thr_exact_binary64 q N vc Hp Hq Htot HN)
+                (newq_near_binary64 q N (total vc) Hq Htot HN)
+                (positions_near_binary64 q N (total vc) Hq Htot HN) Hfq lo hi Hin Hnf) as H.
+  lia.
+Qed.
+
+Corollary bucket_bound_2_5_binary64 : forall dedup q len_df vc l,
+  Sorted Z.lt (observed_values vc) -> Forall (fun p => 0 < snd p) vc -> total vc <= len_df ->
+  len_df <= 2 ^ 50 -> 0 < q -> 8 * q <= len_df ->
+  find_quantiles_v dedup q len_df vc = QOk l ->
+  forall lo hi, In (lo, hi) (bounds None l) ->
+  (forall b c, hi = Some b -> In (b, c) vc -> is_freq (thr len_df q) c = false) ->
+  2 * q * bucket_count vc lo hi <= 5 * len_df.
+Proof.
+  intros dedup q N vc l Hs Hp Htot HN Hq H8 Hfq lo hi Hin Hnf.
+  pose proof (bucket_bound_binary64 dedup q N vc l Hs Hp Htot HN ltac:(lia) Hfq lo hi Hin Hnf). lia.
+Qed.
+
+Corollary bucket_bound_min_freq_binary64 : forall dedup mf q len_df vc l,
+  Sorted Z.lt (observed_values vc) -> Forall (fun p => 0 < snd p) vc -> total vc <= len_df ->
+  len_df <= 2 ^ 50 -> 0 < q <= 2 ^ 50 ->
+  snd mf <= 0 -> (9 * len_df + 8 * q) * 2 ^ (- snd mf) <= 10 * q * fst mf * len_df ->
+  find_quantiles_v dedup q len_df vc = QOk l ->
+  forall lo hi, In (lo, hi) (bounds None l) ->
+  (forall b c, hi = Some b -> In (b, c) vc -> is_freq (thr len_df q) c = false) ->
+  2 * bucket_count vc lo hi * 2 ^ (- snd mf) <= 5 * fst mf * len_df.
+Proof.
+  intros dedup mf q N vc l Hs Hp Htot HN Hq Hx Hmf Hfq lo hi Hin Hnf.
+  apply (C09_bucket_bound_min_freq 1 (2 ^ 50) dedup mf q N vc l Hs Hp Htot); try lia; try assumption.
+  - apply thr_exact_binary64; assumption.
+  - apply newq_near_binary64; assumption.
+  - apply positions_near_binary64; assumption.
+Qed.
+
+Print Assumptions bucket_bound_binary64.
+Print Assumptions bucket_bound_2_5_binary64.
+Print Assumptions bucket_bound_min_freq_binary64.
+
+(* ============================================================================================ *)
+(* G — find_quantiles never fails on a well-formed aggregate (len_df, q <= 2^50)                   *)
+(* ============================================================================================ *)
+Lemma new_q_total : forall q N n, 0 < q <= 2 ^ 50 -> 0 < n <= N -> N <= 2 ^ 50 ->
+  exists nq, new_q_of q N n = Some nq.
+Proof.
+  intros q N n Hq Hn HN. unfold new_q_of, fdivZ.
+  destruct (f_of_Z_spec n ltac:(change (2 ^ 53) with (8 * 2 ^ 50); lia)) as (mn & en & Nn & Hen & _ & Vn).
+  destruct (f_of_Z_spec N ltac:(change (2 ^ 53) with (8 * 2 ^ 50); lia)) as (mN & eN & NN & HeN & _ & VN).
+  destruct (f_of_Z_spec q ltac:(change (2 ^ 53) with (8 * 2 ^ 50); lia)) as (mq & eq & Nq & Heq & _ & Vq).
+  destruct (fdiv_spec _ _ _ _ _ _ Nn NN ltac:(lia) ltac:(lia)) as (md & ed & Nd & Hed & Cd).
+  destruct (fmul_spec _ _ _ _ _ _ Nd Nq ltac:(lia) ltac:(lia)) as (my & ey & [Ey _] & _ & Cy).
+  rewrite Ey. destruct (rhe_spec my ey) as (r & Er & _). exists r. exact Er.
+Qed.
+
+Lemma q_position_total : forall n nq i,
+  1 <= n -> n - 1 < 2 ^ 50 -> 1 < nq < 2 ^ 53 -> 1 <= i < nq ->
+  exists j, q_position n nq i = Some j /\ 0 <= j < n.
+Proof.
+  intros n nq i Hn1 Hn2 Hnq Hi.
+  assert (Hex : exists j, q_position n nq i = Some j /\ 0 <= j).
+  { unfold q_position.
+    destruct (frac_spec i nq ltac:(lia) ltac:(lia)) as (mt & et & Nt & Het & Wt).
+    destruct (Z.eq_dec n 1) as [->|Hne].
+    - destruct Nt as [Et _]. change (1 - 1) with 0. rewrite f_of_Z_0, Et. cbn. exists 0. split; [reflexivity|lia].
+    - destruct (f_of_Z_spec (n - 1) ltac:(change (2 ^ 53) with (8 * 2 ^ 50); lia)) as (ma & ea & Na & Hea & _ & Va).
+      destruct (fmul_spec _ _ _ _ _ _ Na Nt ltac:(lia) ltac:(lia)) as (my & ey & [Ey _] & _ & Cy).
+      rewrite Ey. destruct (f_floor_spec my ey) as (j & Ej & J1 & J2). exists j. split; [exact Ej|].
+      pose proof (val_pos my ey) as Hv.
+      assert (U : (inject_Z (-1) < inject_Z j)%Q) by (change (inject_Z (-1)) with (-1)%Q; lra).
+      rewrite <- Zlt_Qlt in U. lia. }
+  destruct Hex as (j & Ej & Hj). exists j. split; [exact Ej|]. split; [exact Hj|].
+  destruct (q_position_near n nq i j Hn1 Hn2 Hnq Hi Ej) as [N1 _].
+  destruct (Z.eq_dec n 1) as [->|Hne].
+  - assert (nq * j <= nq * 1) by lia. assert (nq * j < nq * 1 \/ j = 1) as [L| ->] by nia.
+    + apply lt_of_mul_lt in L; lia.
+    + (* j = 1 is excluded by the computation: position 0 *)
+      unfold q_position in Ej. destruct (frac_spec i nq ltac:(lia) ltac:(lia)) as (mt & et & [Et _] & _).
+      change (1 - 1) with 0 in Ej. rewrite f_of_Z_0, Et in Ej. cbn in Ej. discriminate Ej.
+  - assert (L : nq * j < nq * n) by nia. apply lt_of_mul_lt in L; lia.
+Qed.
+
+Lemma mapM_total : forall (A B : Type) (f : A -> qres B) l,
+  (forall x, In x l -> exists y, f x = QOk y) -> exists ys, mapM f l = QOk ys.
+Proof.
+  intros A B f. induction l as [|x t IH]; intros H; [exists []; reflexivity|].
+  destruct (H x (or_introl eq_refl)) as [y Ey]. destruct IH as [ys Eys]; [intros; apply H; right; assumption|].
+  exists (y :: ys). cbn [mapM]. rewrite Ey, Eys. reflexivity.
+Qed.
+
+Lemma leaf_total : forall q N seg, wf_vc seg -> seg <> [] ->
+  0 < q <= 2 ^ 50 -> total seg <= N -> N <= 2 ^ 50 -> exists r, leaf q N seg = QOk r.
+Proof.
+  intros q N seg Hwf Hne Hq Htot HN.
+  assert (Hpos : Forall (fun p => 0 < snd p) seg) by (destruct Hwf; assumption).
+  pose proof (total_pos seg Hpos Hne) as Hn.
+  destruct (new_q_total q N (total seg) Hq ltac:(lia) HN) as [nq Enq].
+  destruct (new_q_spec q N (total seg) nq Hq ltac:(lia) HN Enq) as [_ Hlt].
+  unfold leaf. rewrite Enq. destruct (1 <? nq) eqn:E1.
+  - apply mapM_total. intros i Hi. apply In_range1 in Hi.
+    destruct (q_position_total (total seg) nq i ltac:(lia) ltac:(lia) ltac:(lia) ltac:(lia)) as (j & Ej & Hj).
+    destruct (nth_sorted_total seg j Hwf Hj) as [v Ev]. exists v. unfold pick. rewrite Ej.
+    assert (E : (j <? 0) = false) by lia. rewrite E, Ev. reflexivity.
+  - destruct seg as [|[v c] t]; [congruence|]. cbn [max_value]. destruct (max_value t); eauto.
+Qed.
+
+Theorem find_quantiles_total : forall dedup q N vc,
+  Sorted Z.lt (observed_values vc) -> Forall (fun p => 0 < snd p) vc ->
+  0 < q <= 2 ^ 50 -> total vc <= N -> N <= 2 ^ 50 ->
+  exists l, find_quantiles_v dedup q N vc = QOk l.
+Proof.
+  intros dedup q N vc Hs Hp Hq Htot HN. pose proof (wf_of_unique vc Hs Hp) as Hwf.
+  assert (Hfq : exists l0, fq np_fuel q N vc = QOk l0).
+  { unfold np_fuel. rewrite fq_S. destruct vc as [|p0 t0] eqn:Evc; [eauto|]. rewrite <- Evc in *.
+    assert (Hne : vc <> []) by (rewrite Evc; discriminate). clear Evc p0 t0.
+    destruct (existsb (fun p => is_freq (thr N q) (snd p)) vc).
+    - destruct (mapM_total _ _ (fq 2 q N) (segments (thr N q) vc)) as [rs Ers].
+      + intros seg Hseg. destruct (segment_sub _ _ _ Hseg Hwf) as (Hswf & Hstot & Hsub).
+        rewrite fq_nonfreq by (intros p Hp'; apply Hsub; exact Hp').
+        destruct seg as [|s0 s1] eqn:Es; [eauto|]. rewrite <- Es in *.
+        apply leaf_total; try assumption; [rewrite Es; discriminate|lia].
+      + rewrite Ers. eauto.
+    - apply leaf_total; assumption. }
+  destruct Hfq as [l0 E]. unfold find_quantiles_v, find_quantiles, find_quantiles_dedup.
+  destruct dedup; rewrite E; eauto.
+Qed.
+
+Print Assumptions find_quantiles_total.
+
+(* the search succeeds and its buckets obey the bound *)
+Theorem bucket_bound_total_binary64 : forall dedup q len_df vc,
+  Sorted Z.lt (observed_values vc) -> Forall (fun p => 0 < snd p) vc ->
+  0 < q <= 2 ^ 50 -> total vc <= len_df -> len_df <= 2 ^ 50 ->
+  exists l, find_quantiles_v dedup q len_df vc = QOk l
+    /\ forall lo hi, In (lo, hi) (bounds None l) ->
+       (forall b c, hi = Some b -> In (b, c) vc -> is_freq (thr len_df q) c = false) ->
+       4 * q * bucket_count vc lo hi <= 9 * len_df + 8 * q.
+Proof.
+  intros dedup q N vc Hs Hp Hq Htot HN.
+  destruct (find_quantiles_total dedup q N vc Hs Hp Hq Htot HN) as [l El]. exists l. split; [exact El|].
+  apply (bucket_bound_binary64 dedup q N vc l); assumption.
+Qed.
+Print Assumptions bucket_bound_total_binary64.
